@@ -234,7 +234,7 @@ class Spec:
                   undecided=undecided, pure=pure, ufunc=ufunc, forall=forall, exists=exists,
                   extra_check=extra_check, rx=re.compile, SPEC=sp)
         for k in ("INT BOOL STR BYTES NONE ANY Seq Tup Opt SetS MapS Opaque Enum Obj V If And Or Not Implies "
-                  "Len In TRUE FALSE lift eq truthy mkset").split():
+                  "Len In TRUE FALSE lift eq truthy mkset mapstore mapdel mapeq").split():
             ns[k] = getattr(S, k)
         return ns
 
